@@ -30,9 +30,9 @@ type TreeFile struct {
 // C19Case: a file tree, tool options, a scenario.
 type C19Case struct {
 	Tree     []TreeFile `json:"tree"`
-	Opts     []string   `json:"opts"`     // compression options (-l N | -t X -e Y, -b, -j, -x.., -s)
-	DJobs    int        `json:"djobs"`    // -j of the decompression run
-	Scenario string     `json:"scenario"` // inplace, outdir, outdir-force, single, pipe, no-overwrite, same-file, rm, rm-kill
+	Opts     []string   `json:"opts"`                // compression options (-l N | -t X -e Y, -b, -j, -x.., -s)
+	DJobs    int        `json:"djobs"`               // -j of the decompression run
+	Scenario string     `json:"scenario"`            // inplace, outdir, outdir-force, single, pipe, no-overwrite, same-file, rm, rm-kill
 	KillMs   int        `json:"kill_ms,omitempty"`   // rm-kill: delay before SIGKILL in microseconds-ish units (scaled by the measured duration)
 	KillFrac int        `json:"kill_frac,omitempty"` // rm-kill: per-mille of the measured duration
 	// InSpell: how the input directory is spelled on the command line (tree scenarios): "" = "src", "dot-slash" = "./src",
